@@ -680,6 +680,21 @@ class Planner:
                 e = self.call("ufl.conditional", self.ref(c), self.ref(t1), self.ref(t2))
                 if e is not None:
                     return e
+        if len(picks) >= 3 and r.random() < 0.15:
+            # one product in which several bases cancel at once: (t1**a * t2**b * t3) * (1/t1) * (1/t2**c)
+            num = None
+            for t, pw in zip(picks, [3, 4, 1, 2]):
+                f_ = self.call("operator.pow", self.ref(t), pw) if pw > 1 else t
+                num = f_ if num is None else (self.call("operator.mul", self.ref(num), self.ref(f_)) if f_ is not None else num)
+            den = None
+            for t, pw in zip(picks[:2], [1, 2]):
+                b_ = self.call("operator.pow", self.ref(t), pw) if pw > 1 else t
+                i_ = self.call("operator.truediv", 1, self.ref(b_)) if b_ is not None else None
+                den = i_ if den is None else (self.call("operator.mul", self.ref(den), self.ref(i_)) if i_ is not None else den)
+            if num is not None and den is not None:
+                e = self.call("operator.mul", self.ref(num), self.ref(den))
+                if e is not None:
+                    return e
         e = picks[0]
         opn = r.choice(["mul", "add", "mix"])
         for q in picks[1:]:
@@ -740,6 +755,16 @@ class Planner:
                 m = out if self.emit(["lit", out, ["fn", "ufl." + kind]], kind="measure") else None
             else:
                 m = out if self.emit(["meth", out, ["fn", "ufl." + kind], "__call__", [], kw], kind="measure") else None
+        elif md is None and like is None and r.random() < 0.08:
+            # a measure without a domain (taken from the integrand) and with several subdomain
+            # ids, kept by the user and used for more than one form
+            if getattr(self, "_loose_measure", None) is None or r.random() < 0.3:
+                self._loose_measure = self.call("ufl.Measure", kind, kind="measure", subdomain_id=["t", 1, 2])
+                self._loose_kind = kind
+            m = self._loose_measure
+            if m is not None:
+                kind = self._loose_kind
+                self.dicts.append(m)
         else:
             m = self.call("ufl.Measure", kind, kind="measure", **kw)
         if m is not None and r.random() < 0.15:
@@ -1154,7 +1179,18 @@ class Planner:
                     pairs.append([self.ref(w), self.ref(dw)])
             if len(pairs) < 2:
                 return None
-            d = self.call("ufl.derivative", F, self.ref(u), kind="form", keep_failed=kf, coefficient_derivatives=["d", pairs])
+            if r.random() < 0.4:
+                # the caller's own dict, with a python number among the values
+                if r.random() < 0.5:
+                    pairs[-1] = [pairs[-1][0], r.choice([2, 0.5, 1])]
+                cd = self.new()
+                if self.emit(["lit", cd, ["d", pairs]], kind="mapping"):
+                    self.dicts.append(cd)
+                    d = self.call("ufl.derivative", F, self.ref(u), kind="form", keep_failed=kf, coefficient_derivatives=self.ref(cd))
+                else:
+                    d = None
+            else:
+                d = self.call("ufl.derivative", F, self.ref(u), kind="form", keep_failed=kf, coefficient_derivatives=["d", pairs])
             if d is not None and r.random() < 0.5:
                 return self.call("ufl.algorithms.expand_derivatives", self.ref(d), kind="form", keep_failed=kf) or d
             return d
@@ -2289,6 +2325,8 @@ class Planner:
             (["ufl.classes.FixedIndex", [2.5]], ["ufl.classes.FixedIndex", [2]]),
             (["ufl.classes.FixedIndex", ["a"]], ["ufl.classes.FixedIndex", [3]]),
             (["ufl.classes.MultiIndex", [["t", 1, 2]]], None),
+            (["ufl.classes.FixedIndex", [5.0]], ["ufl.classes.FixedIndex", [5]]),
+            (["ufl.classes.FixedIndex", [6.0]], ["ufl.classes.FixedIndex", [6]]),
             (["ufl.Identity", [2.0]], ["ufl.Identity", [2]]),
             (["ufl.as_ufl", ["x"]], None),
         ]
@@ -2296,6 +2334,9 @@ class Planner:
             self.emit(["call", self.new(), bad[0], bad[1]], keep_failed=True)
             if good is not None:
                 g = self.call(good[0], *good[1])
+                if g is not None and good[0].endswith("FixedIndex"):
+                    # the interned index inside an expression of the pool
+                    g = self.call("ufl.classes.MultiIndex", ["t", self.ref(g)])
                 if g is not None and isinstance(self.node.slots.get(g), Expr):
                     pool.append(g)
                     try:
@@ -2303,6 +2344,8 @@ class Planner:
                     except AttributeError:
                         # the valid call handed out a half-built object: stop building on it
                         break
+                    except ValueError:
+                        scalar = False  # a MultiIndex has no shape
                     if scalar and r.random() < 0.5:
                         w = self.call("ufl.as_vector", [self.ref(g), self.ref(g)])
                         if w is not None:
